@@ -54,6 +54,9 @@ CLAIMED = {
     "C05": ("Coq proof (the code's analytical recursion = loop-nest execution, by induction over the nest with an invariant over parent holder and freshness; closed form; freshness = never visited before) + differential correspondence of evaluate_mapping against the model and a brute-force execution",
             "C05_reads_writes / C05_invariant: for every chain of loops and holders (any depth, counts, skip flags) the per-level read and write counts of the modelled analyze_storage/analyze_temporal/analyze_compute recursion equal the counts of an execution that iterates every loop; C05_closed_form; C05_fresh_iff_unwritten; C05_energy_latency lifts this to actions, per-component latency, max-latency and energy of whole mappings. The real evaluate_mapping is run on random specs and concrete mappings and every action count, latency and energy column is compared with the vm_compute-evaluated model and with an independent Python execution.",
             "Coq kernel; class: one Einsum, temporal loops, Memory levels, dense one-variable-per-rank projections, perfect factorisation (spatial loops, Tolls -> C31, imperfect factorisation, copy Einsums outside); value->action scale factors computed by the harness with the documented precedence and checked through the correspondence"),
+    "C06": ("Coq proof (reported usage = execution-time peak of live tiles whenever no holder's run of relevant loops is cut by another tensor's holder node; never below the peak in any valid mapping; over-subscription rejected iff some finite memory is exceeded; refuted witness for the order-dependent case = finding F9) + differential correspondence; the closed-form peak is validated against explicit first-use/last-use traces",
+            "C06_single, C06_never_under_reports, C06_reject, C06_order_dependent_refuted over the model of insert_reservation_nodes / analyze_reservation / run_model for single-Einsum mappings; evaluate_mapping's resource_usage() and acceptance are compared with the vm_compute-evaluated model and with the execution-time peak occupancy on random mappings with comfortable / exact / too-small memories. PARTIAL: fused multi-Einsum mappings (the joiner's reservation algebra) and persistent tensors x n_instances are not modelled.",
+            "Coq kernel; single Einsum, temporal loops; tile-granular liveness with streaming as reference (validated by brute-force traces in the harness); known finding F9"),
 }
 
 PENDING_REASON = "check not built yet in this round (planned, see DESIGN.md section 6); not claimed until its proof and correspondence exist"
